@@ -318,7 +318,8 @@ Fixpoint ver_scan (is16 : bool) (st en first last : bytes) (ok found : bool) (ls
         if ps_ver_malformed lstr st en then Err E_MALFORMED else
         let i := ps_ver_lo (zlen st) in
         let j := ps_ver_hi (zlen lstr) (zlen en) in
-        if j <? i then Panic 2 else
+        if ps_ver_overlap i j then Err E_MALFORMED else
+        if j <? i then Panic 2 else  (* the slice's own bound check; excluded by the guard above *)
         d <- b64_dec (zslice i j lstr) ;;
         r <- ver_scan is16 st en first last ok found rest ;;
         Ok (match r with Some acc => Some (d ++ acc) | None => None end)
